@@ -594,7 +594,7 @@ func (fr *Frame) builtin(b *ssa.Builtin, cc *ssa.CallCommon, args []Val, st *Sta
 			_, _, cn := c.mapNames(u)
 			return tv(tIte(tEq(x.T, intLit(0)), intLit(0), tSelect(c.heapGet(st, cn), x.T))), nil
 		case *types.Basic:
-			return tv(app(SInt, "str.len", x.T)), nil
+			return tv(app(SInt, "gstr.len", x.T)), nil
 		case *types.Array:
 			return tv(intLit(u.Len())), nil
 		case *types.Pointer:
@@ -662,9 +662,9 @@ func (fr *Frame) appendBuiltin(cc *ssa.CallCommon, args []Val, st *State, g *Ter
 			return tSelect(srcArr, mk(SInt, fmt.Sprintf("(+ (s.off %s) %s)", src.S, j.S)))
 		}
 	} else {
-		c.declareFun("str.at", []Sort{SStr, SInt}, SInt)
-		addLen = app(SInt, "str.len", args[1].T)
-		srcElem = func(j *Term) *Term { return app(SInt, "str.at", args[1].T, j) }
+		c.declareFun("gstr.at", []Sort{SStr, SInt}, SInt)
+		addLen = app(SInt, "gstr.len", args[1].T)
+		srcElem = func(j *Term) *Term { return app(SInt, "gstr.at", args[1].T, j) }
 	}
 	oldArr := c.define("append.old", tSelect(c.heapGet(st, en), mk(SInt, "(s.arr "+s.S+")")))
 	r := c.allocRef(st, g, "append")
@@ -698,9 +698,9 @@ func (fr *Frame) copyBuiltin(cc *ssa.CallCommon, args []Val, st *State, g *Term)
 		srcArr := c.define("copy.src", tSelect(c.heapGet(st, en), mk(SInt, "(s.arr "+s.S+")")))
 		srcElem = func(j string) string { return fmt.Sprintf("(select %s (+ (s.off %s) %s))", srcArr.S, s.S, j) }
 	} else {
-		c.declareFun("str.at", []Sort{SStr, SInt}, SInt)
-		srcLen = app(SInt, "str.len", args[1].T)
-		srcElem = func(j string) string { return fmt.Sprintf("(str.at %s %s)", args[1].T.S, j) }
+		c.declareFun("gstr.at", []Sort{SStr, SInt}, SInt)
+		srcLen = app(SInt, "gstr.len", args[1].T)
+		srcElem = func(j string) string { return fmt.Sprintf("(gstr.at %s %s)", args[1].T.S, j) }
 	}
 	n := c.define("copy.n", app(SInt, "minI", mk(SInt, "(s.len "+d.S+")"), srcLen))
 	oldArr := c.define("copy.old", tSelect(c.heapGet(st, en), mk(SInt, "(s.arr "+d.S+")")))
